@@ -132,6 +132,16 @@ func genField(r *gen.Rng) fld {
 func genScalars(r *gen.Rng) []rune {
 	n := r.Intn(12)
 	rs := make([]rune, 0, n)
+	if r.Chance(1, 5) { // one script only: Latin-1 (all code units have a zero high byte)
+		for i := 0; i < n; i++ {
+			if r.Chance(1, 3) {
+				rs = append(rs, rune(0x80+r.Intn(0x80)))
+			} else {
+				rs = append(rs, rune(0x20+r.Intn(0x5f)))
+			}
+		}
+		return rs
+	}
 	for i := 0; i < n; i++ {
 		switch r.Intn(8) {
 		case 0:
@@ -177,6 +187,10 @@ func utf16le(rs []rune) []byte {
 func c03Line(c *Ctx, in string) {
 	parts := strings.Fields(in)
 	switch parts[0] {
+	case "reset", "sreset":
+		c03sLine(c, "sreset")
+	case "sreg", "sraw", "sget", "schk":
+		c03sLine(c, in)
 	case "dec": // dec <spec> <rest> <buf>
 		spec := parts[1]
 		kinds := ""
@@ -228,10 +242,16 @@ func runC03(c *Ctx) {
 		for _, l := range replayLines(c.Replay) {
 			c03Line(c, l)
 		}
+		c03w.close()
 		return
 	}
 	r := c.R
-	for i := 0; i < c.N; i++ {
+	defer func() { c03w.close() }()
+	for i := 0; c.Lines < c.N; i++ {
+		if i%12 == 11 {
+			genSessionCase(c)
+			continue
+		}
 		switch k := r.Intn(10); {
 		case k < 4: // reference-encoded fields followed by every residue
 			nf := 1 + r.Intn(6)
